@@ -130,6 +130,7 @@ func (k *KerberosProxy) forward(realm string, data []byte) (resp []byte, err err
 	}
 
 	replies := make(chan []byte, len(kdcs))
+	started := 0
 	for i := range kdcs {
 		conn, err := net.Dial(kdcs[i].Proto, kdcs[i].Host)
 
@@ -152,17 +153,28 @@ func (k *KerberosProxy) forward(realm string, data []byte) (resp []byte, err err
 		}
 
 		kdcs[i].Conn = conn
+		started++
 		go awaitReply(conn, kdcs[i].Proto == "udp", replies)
 	}
 
-	reply := <-replies
-
-	// close all the connections and return the first reply
+	// wait for exactly the readers that were started: keep the first reply and
+	// close all the connections as soon as it is in, so the other readers return
+	var reply []byte
+	for ; started > 0; started-- {
+		r := <-replies
+		if reply == nil && r != nil {
+			reply = r
+			for kdc := range kdcs {
+				if kdcs[kdc].Conn != nil {
+					kdcs[kdc].Conn.Close()
+				}
+			}
+		}
+	}
 	for kdc := range kdcs {
 		if kdcs[kdc].Conn != nil {
 			kdcs[kdc].Conn.Close()
 		}
-		<-replies
 	}
 
 	if reply != nil {
